@@ -114,9 +114,10 @@ class VT:
 
 
 class Point:
-    __slots__ = ("n", "running_enabled", "chosen", "kind", "cost", "labels")
+    __slots__ = ("n", "running_enabled", "chosen", "kind", "cost", "labels", "alt_costs")
 
-    def __init__(self, n, running_enabled, chosen, kind, cost, labels=None):
+    def __init__(self, n, running_enabled, chosen, kind, cost, labels=None, alt_costs=None):
+        self.alt_costs = alt_costs  # optional per-alternative deviation cost (index = alternative)
         self.n = n
         self.running_enabled = running_enabled
         self.chosen = chosen
@@ -129,7 +130,8 @@ class Scheduler:
     """One execution = one Scheduler instance."""
 
     def __init__(self, prefix=(), bounding="delay", step_budget=400_000, horizon=None,
-                 trace_files=None, record_trace=False, expect_ns=None):
+                 trace_files=None, record_trace=False, expect_ns=None, timer_dev=False):
+        self.timer_dev = timer_dev  # explore "a timed wait expires although other threads can run" (cost 1)
         self.threads = []
         self.by_ident = {}
         self.now = EPOCH
@@ -284,7 +286,12 @@ class Scheduler:
                     me, Livelock("virtual-time horizon exceeded (t=+%.1fs)" % (d - EPOCH)))
             self.now = d
             self.time_jumps += 1
-        if len(en) == 1:
+        timers = []
+        if self.timer_dev and self.branching:
+            timers = [t for t in self.threads
+                      if not t.done and t.state == "blocked" and t.deadline is not None
+                      and t not in en and not t.idle and t is not self.main]
+        if len(en) == 1 and not timers:
             return en[0]
         running_enabled = me in en and not me.done
         if running_enabled:
@@ -292,11 +299,22 @@ class Scheduler:
             en.insert(0, me)
         if not self.branching:
             return en[0]
-        idx = self._decide(len(en), running_enabled, "sched",
-                           1, None)
+        alt_costs = None
+        if timers:
+            if self.bounding == "preempt":
+                c = 1 if running_enabled else 0
+            else:
+                c = 1
+            alt_costs = [0] + [c] * (len(en) - 1) + [1] * len(timers)
+        idx = self._decide(len(en) + len(timers), running_enabled, "sched", 1, None, alt_costs)
+        if idx >= len(en):
+            t = timers[idx - len(en)]
+            self.now = max(self.now, t.deadline)   # the timer lands first
+            self.time_jumps += 1
+            return t
         return en[idx]
 
-    def _decide(self, n, running_enabled, kind, cost, labels):
+    def _decide(self, n, running_enabled, kind, cost, labels, alt_costs=None):
         i = len(self.points)
         if i < len(self.prefix):
             c = self.prefix[i]
@@ -308,7 +326,7 @@ class Scheduler:
                        else None, n))
         else:
             c = 0
-        self.points.append(Point(n, running_enabled, c, kind, cost, labels))
+        self.points.append(Point(n, running_enabled, c, kind, cost, labels, alt_costs))
         return c
 
     def _interrupt(self, me, exc):
